@@ -427,7 +427,7 @@ func ruleTTMLAttributes(p *Prog, l *Ledger, tier string) {
 	inFn := anchor(p, l, rule, "TTMLInStyleAttributes.styleAttributes")
 	outFn := anchor(p, l, rule, "ttmlOutStyleAttributesFromStyleAttributes")
 	if inFn != nil && outFn != nil {
-		a := wiring(inFn, "StyleAttributes", "TTMLInStyleAttributes")  // SA.F ← In.X
+		a := wiring(inFn, "StyleAttributes", "TTMLInStyleAttributes")   // SA.F ← In.X
 		b := wiring(outFn, "TTMLOutStyleAttributes", "StyleAttributes") // Out.X ← SA.F
 		m := 0
 		for _, x := range sortedKeysOf(b) {
